@@ -659,3 +659,8 @@ package index
 //@   assert at after call index.createFileAppend#1: @output-starts-empty $r1 == nil ==> $r0.$size == 0 && $r0.$name == fname(name, fileNum)
 //@   assert at before call (*bufio.Writer).Write#0: @record-starts-below-limit 0 <= written && written < fileSizeLimit
 //@   loop 0 invariant 0 <= written && written < fileSizeLimit && outFile != nil && fresh(outFile) && writer != nil && reader != nil && len(sizeBuffer) == 4 && fresh(sizeBuffer)
+
+//@ func createFileAppend(name string) (f *os.File, err error)  property C10
+//@   fresh f
+//@   ensures @created-empty err == nil ==> f != nil && f.$open && f.$size == 0 && f.$name == name
+//@   ensures err != nil ==> f == nil
